@@ -91,6 +91,7 @@ type c11World struct {
 	auth   map[string]bool   // roles whose connection is authenticated
 	mapObj map[string]string // mapping id -> object name
 	MH, MG *models.PortMapping // history world: migrated (L -> L2) and deleted mapping
+	M0     *models.PortMapping // server-listened mapping (ListenClientID 0, HTTP), target V2
 	query  interface {
 		QueryByPrefix(string, int) (map[string]string, error)
 	}
@@ -255,6 +256,17 @@ func c11NewWorldState(t testing.TB, run *vk.Run, extra func(w *c11World), st c11
 	}
 	w.M = mk("V1", "V2", "m")
 	w.MS = mk("S", "S", "ms")
+	// a mapping whose listen side is the server itself (management-API style HTTP mapping):
+	// ListenClientID == 0, the same number an unauthenticated connection carries
+	w.M0 = mk("-server-", "V2", "m0")
+	if w.M0.ListenClientID != 0 {
+		t.Fatalf("c11: M0 listen client is %d", w.M0.ListenClientID)
+	}
+	w.M0.Protocol = models.ProtocolHTTP
+	w.M0.TrafficStats.BytesSent, w.M0.TrafficStats.BytesReceived = 10, 10
+	if err := n.CCS.GetPortMappingService().UpdatePortMapping(w.M0); err != nil {
+		t.Fatalf("c11: update M0: %v", err)
+	}
 	var MW *models.PortMapping
 	if st.Hist {
 		// MH: created with listener L, then moved to L2 by the real migration operation;
@@ -317,6 +329,8 @@ func c11NewWorldState(t testing.TB, run *vk.Run, extra func(w *c11World), st c11
 	add("M", []string{"V1", "V2"}, mm(w.M, "m")...)
 	add("MS", []string{"S"}, mm(w.MS, "ms")...)
 	w.mapObj[w.M.ID], w.mapObj[w.MS.ID] = "M", "MS"
+	add("M0", []string{"V2"}, mm(w.M0, "m0")...)
+	w.mapObj[w.M0.ID] = "M0"
 	if st.Hist {
 		// parties are the CURRENT ListenClientID/TargetClientID of the stored mapping
 		add("MH", []string{"L2", "V2"}, mm(w.MH, "mh")...)
@@ -531,6 +545,9 @@ func (w *c11World) aim(kind, req string) (m *models.PortMapping, k *models.Tunne
 	if strings.HasPrefix(kind, "aimB") {
 		return w.MS, w.KS, w.D["DS"], w.id["S"]
 	}
+	if strings.HasPrefix(kind, "aim0") {
+		return w.M0, w.K, w.D["D1"], w.id["V2"]
+	}
 	if strings.HasPrefix(kind, "aimH") {
 		return w.MH, w.K, w.D["D1"], w.id["V2"]
 	}
@@ -601,6 +618,7 @@ func (w *c11World) bodies(ct byte, pt packet.Type, req string, thorough bool, se
 	// same bodies with every receiver/identity-looking body field naming a client that is
 	// NO party to the aimed mapping (and is not the requester): for commands that name a
 	// mapping the mapping decides who is reached, never the body
+	out = append(out, [2]string{"aim0", wf("aim0")})
 	if w.MH != nil {
 		out = append(out, [2]string{"aimH", wf("aimH")}, [2]string{"aimG", wf("aimG")})
 	}
@@ -1199,7 +1217,7 @@ func (w *c11World) judge(cs c11Case, cmd *packet.CommandPacket, out *c11Outcome)
 
 func (w *c11World) describe() map[string]any {
 	return map[string]any{"ids": w.id, "M": w.M.ID, "MS": w.MS.ID, "K": w.K.Code, "KS": w.KS.Code,
-		"D1": w.D["D1"].ID, "D2": w.D["D2"].ID, "DS": w.D["DS"].ID, "mark": w.mark, "mapping_state": w.state.Map, "code_state": w.state.Code, "history_world": w.state.Hist,
+		"M0(server-listened, ListenClientID=0, target V2)": w.M0.ID, "D1": w.D["D1"].ID, "D2": w.D["D2"].ID, "DS": w.D["DS"].ID, "mark": w.mark, "mapping_state": w.state.Map, "code_state": w.state.Code, "history_world": w.state.Hist,
 		"history_roles": "L=ex-listener of MH (migrated to L2 by MigrateClientMappings); MG=deleted mapping; W=authenticated owner of MW, disconnected; U2=first connection after W left, phase-1 for V1 + failed phase-2",
 		"roles": "U0=no handshake; U1=phase-1 for V1 only; V1=listen side of M; V2=target side of M, owner of K; S=unrelated, owns MS/KS/DS"}
 }
@@ -1464,7 +1482,7 @@ func c11AllTypes() []byte {
 func TestVerifC11Table(t *testing.T) {
 	run := vk.Start(t, "C11", "table")
 	defer run.Finish()
-	run.Rule("every CommandType byte 0..255 as JsonCommand (quick: CommandResp only for registered/special-cased types; thorough: CommandResp for all) x requester {U0 no handshake, U1 phase-1 for V1's id only, V1 listen party, V2 target party, S unrelated authenticated} x body {handler's well-formed body aimed at the victims' objects, same aimed at S's objects, both again with every receiver/identity-looking body field naming a non-party client, DNS default-target, empty, truncated JSON (+4 malformed mutants thorough)} x forgery {none, victim ids in SenderId/ReceiverId, victim's secret in Token, victim's id in Token, identity fields added to the body (+swapped ids, all combined thorough)}; a case is distinct by that tuple; then, for the registered and special-cased types, again with the mappings in state {revoked by a party, expired but stored, inactive} and the connection codes in state {revoked, expired but stored, activated}; worlds (fresh mini server + objects with fresh markers) are rebuilt after every state-changing case")
+	run.Rule("every CommandType byte 0..255 as JsonCommand (quick: CommandResp only for registered/special-cased types; thorough: CommandResp for all) x requester {U0 no handshake, U1 phase-1 for V1's id only, V1 listen party, V2 target party, S unrelated authenticated} x body {handler's well-formed body aimed at the victims' objects, same aimed at S's objects, same aimed at a server-listened mapping (ListenClientID 0 -> V2), the first two again with every receiver/identity-looking body field naming a non-party client, DNS default-target, empty, truncated JSON (+4 malformed mutants thorough)} x forgery {none, victim ids in SenderId/ReceiverId, victim's secret in Token, victim's id in Token, identity fields added to the body (+swapped ids, all combined thorough)}; a case is distinct by that tuple; then, for the registered and special-cased types, again with the mappings in state {revoked by a party, expired but stored, inactive} and the connection codes in state {revoked, expired but stored, activated}; worlds (fresh mini server + objects with fresh markers) are rebuilt after every state-changing case")
 	d := &c11Driver{t: t, run: run, settle: map[byte]bool{}, reached: map[byte]bool{}}
 	defer func() {
 		if d.w != nil {
